@@ -16,31 +16,33 @@ where
     loop {
         let src = reader.fill_buf().await?;
 
+        // Like the synchronous reader, consume line terminators (and blank lines) at the start of
+        // the buffer. A line terminator is never consumed along with the line it ends, so that a
+        // carriage return and its line feed can be in different buffers.
+        if src
+            .first()
+            .is_some_and(|&b| b == CARRIAGE_RETURN || b == LINE_FEED)
+        {
+            reader.consume(1);
+            n += 1;
+            continue;
+        }
+
         if src.first().map(|&b| b == DEFINITION_PREFIX).unwrap_or(true) {
             break;
         }
 
-        let len = match memchr(LINE_FEED, src) {
-            Some(i) => {
-                let line = &src[..i];
-
-                if line.ends_with(&[CARRIAGE_RETURN]) {
-                    let end = line.len() - 1;
-                    buf.extend_from_slice(&line[..end]);
-                } else {
-                    buf.extend_from_slice(line);
-                }
-
-                i + 1
-            }
-            None => {
-                buf.extend(src);
-                src.len()
-            }
+        let line = match memchr(LINE_FEED, src) {
+            Some(i) => &src[..i],
+            None => src,
         };
 
-        reader.consume(len);
+        let line = line.strip_suffix(&[CARRIAGE_RETURN]).unwrap_or(line);
 
+        buf.extend_from_slice(line);
+
+        let len = line.len();
+        reader.consume(len);
         n += len;
     }
 
